@@ -249,8 +249,9 @@ impl<'a> Tokinizer<'a> {
             };
         }
 
+        /* A leading sign is a prefix of its operand (-rent, -$5), it is handled by the parser */
         if let TokenType::Operator(operator) = self.tokens[index].deref() {
-            if *operator != '(' && *operator != ')' {
+            if *operator != '(' && *operator != ')' && *operator != '-' && *operator != '+' {
                 self.tokens.insert(index, Rc::new(TokenType::Number(0.0, NumberType::Decimal)));
             }
         }
